@@ -65,6 +65,12 @@ func alphabet() []piece {
 		{Name: "if{x:=5;undefined}", Prog: []*N{If(Bool(true), []*N{Var("x", Int(5)), Expr(Bin("+", Id("x"), Id("undefined_name")))}, nil)}},
 		{Name: "for x{c=1}", Prog: []*N{ForRange("x", Int(2), Set1("c", Int(1)))}},
 		{Name: "if{x:=6;x}", Prog: []*N{If(Bool(true), []*N{Var("x", Int(6)), Expr(Id("x"))}, nil)}},
+		// functions nested in functions that read and write a global: made by a factory and called in
+		// the piece that defines them, then called again after later pieces have changed the global
+		{Name: "h:=mk();h()", Prog: []*N{FuncDecl("mk", nil, Return(Func("", nil, Return(Bin("+", Id("x"), Int(1000)))))), Var("h", call("mk")), Expr(call("h"))}},
+		{Name: "h()", Prog: []*N{Expr(call("h"))}},
+		{Name: "w:=mkw();w()", Prog: []*N{FuncDecl("mkw", nil, Return(Func("", nil, Set1("x", Bin("+", Id("x"), Int(10))), Return(Id("x"))))), Var("w", call("mkw")), Expr(call("w"))}},
+		{Name: "w()", Prog: []*N{Expr(call("w"))}},
 	}
 }
 
@@ -333,7 +339,7 @@ func Check(r *ev.Run, replay string) {
 	r.Set("traces_validated_against_impl", len(seqs))
 	r.Set("alphabet_size", len(alpha))
 	r.Set("max_history_length", depth)
-	r.Set("rule", fmt.Sprintf("every sequence of 1..%d pieces over an %d-piece alphabet (definitions, uses, a loop, a closure, a constant; pieces the compiler must reject: undefined name, constant assignment, redeclaration, a rejected piece with a side-effecting prefix, a syntax error; pieces that fail at run time, one of them mid-piece) fed to one compiler and one VM as cmd/risor/repl does; oracle: per-piece status/value/output and final globals equal the reference session model (a rejected piece has no effect; a failed piece keeps its effects up to the failure); states = distinct (per-piece outcomes, globals) of the model, transitions = histories executed on the implementation", depth, len(alpha)))
+	r.Set("rule", fmt.Sprintf("every sequence of 1..%d pieces over an %d-piece alphabet (definitions, uses, a loop, a closure, functions made by a factory that read and write a global, a constant; pieces the compiler must reject: undefined name, constant assignment, redeclaration, a rejected piece with a side-effecting prefix, a syntax error; pieces that fail at run time, one of them mid-piece) fed to one compiler and one VM as cmd/risor/repl does; oracle: per-piece status/value/output and final globals equal the reference session model (a rejected piece has no effect; a failed piece keeps its effects up to the failure); states = distinct (per-piece outcomes, globals) of the model, transitions = histories executed on the implementation", depth, len(alpha)))
 }
 
 // longHistory: a REPL session of many pieces must not run out of VM capacity.
